@@ -51,6 +51,9 @@ def bt_payload(n: int, fill: int) -> bytes:
     return b"d" + body + b"e"
 
 
+OTHER_PREFIX = b"\x00\x02" + b"\x5a" * 20      # prefix of another (anonymised) overlay on the originator's endpoint
+
+
 def ipv8_payload(n: int, fill: int) -> bytes:
     if n < 23:
         return bt_payload(n, fill)
@@ -83,7 +86,10 @@ class Case:
         c = self.case
         hops = c["hops"]
         fault = c.get("fault")
-        w = World(loop, max(hops + 1, c.get("nodes", hops + 1)))
+        # te: the originator runs on a TunnelEndpoint with a second, anonymised overlay listening on it; IPv8-shaped data
+        # that comes back for that overlay must reach it unchanged and attributed to the outside sender
+        te = bool(c.get("te")) and c["kind"] == "data_in" and not fault and not c.get("nested")
+        w = World(loop, max(hops + 1, c.get("nodes", hops + 1)), tunnel_endpoint_at=(0,) if te else ())
         info = {"nontrivial": False, "cls": ""}
         try:
             origin = w.nodes[0]
@@ -102,6 +108,20 @@ class Case:
                                                seed=c["seed"] + 1)
             got_raw: list = []
             origin.overlay.on_raw_data = lambda circ, org, data: got_raw.append((circ.circuit_id, tuple(org), data))
+            got_anon: list = []
+            if te:
+                from ipv8.messaging.interfaces.endpoint import EndpointListener
+
+                class AnonListener(EndpointListener):
+                    anonymize = True
+
+                    def on_packet(self, packet: tuple) -> None:
+                        # (a catch-all listener also sees the node's raw socket traffic: only its own prefix counts)
+                        if bytes(packet[1][:22]) == OTHER_PREFIX:
+                            got_anon.append((tuple(packet[0]), bytes(packet[1])))
+                origin.endpoint.set_tunnel_community(origin.overlay, hops)
+                origin.endpoint.set_anonymity(OTHER_PREFIX, True)
+                origin.endpoint.add_listener(AnonListener(origin.endpoint))
             pongs: list = []
             orig_pong = origin.overlay.decode_map_private[7]
 
@@ -112,8 +132,10 @@ class Case:
             kind = c["kind"]
             size = c["size"]
             # IPv8-shaped data coming back in is re-injected through a TunnelEndpoint (C07); here inbound is raw data
-            shape = "bt" if kind == "data_in" else c.get("shape")
+            shape = "bt" if kind == "data_in" and not te else c.get("shape")
             payload = (ipv8_payload if shape == "ipv8" else bt_payload)(size, c["seed"] & 0xFF)
+            if te:
+                payload = OTHER_PREFIX + bt_payload(max(1, size - 22), c["seed"] & 0xFF)
             dest = tuple(c.get("dest") or ("5.5.5.5", 5555))
             outside = ("7.7.7.7", 7777)
             nested = kind == "data_in" and bool(c.get("nested")) and not fault
@@ -201,12 +223,12 @@ class Case:
                 for data, addr in t.sent[sent0.get(id(t), 0):]:
                     emitted.append((data, tuple(addr)))
             honest_out = {(payload, dest)} if kind == "data_out" else set()
-            honest_in = {(circuit.circuit_id, outside, payload)} if kind == "data_in" and not nested else set()
+            honest_in = {(circuit.circuit_id, outside, payload)} if kind == "data_in" and not nested and not te else set()
             escaped = [(type(e).__name__, str(e)[:60]) for (_, _, _, e) in w.net.escaped]
 
             body_hit = state["hit"] is not None and (state["hit"][0] in ("splice", "swapcid") or
                                                      state["hit"][1] >= CELL_HDR)
-            info["cls"] = "%dhop/%s/%s/%s" % (hops, kind + ("_nested" if nested else ""), size_class(size),
+            info["cls"] = "%dhop/%s/%s/%s" % (hops, kind + ("_nested" if nested else "_te" if te else ""), size_class(size),
                                               "none" if not fault else fault["type"])
             info["nontrivial"] = (size >= 8 and not fault) or body_hit or bool(fault and fault["type"] == "inject")
             info["desc"] = (hops, kind, size_class(size), None if not fault else
@@ -268,7 +290,11 @@ class Case:
                     self.fail("I1", "outbound", f"exit emitted {[(d[:24], a) for d, a in emitted]} for a sent payload of "
                                                 f"{len(payload)} bytes to {dest} (policy allows: {allowed})")
             elif kind == "data_in":
-                want_in = [(circuit.circuit_id, outside, payload)] if allowed and not nested else []
+                want_in = [(circuit.circuit_id, outside, payload)] if allowed and not nested and not te else []
+                if te and got_anon != [(outside, payload)]:
+                    self.fail("I1", "inbound:anonymised_overlay",
+                              f"an outside peer {outside} answered with {len(payload)} bytes for the anonymised overlay on the "
+                              f"originator's TunnelEndpoint; that overlay received {[(a, d[:24]) for a, d in got_anon]}")
                 if nested and got_raw:
                     self.fail("I3", "inbound:nested_data", f"the application was handed {got_raw[0][2][:24]!r} attributed to "
                                                            f"{got_raw[0][1]}; the only outside sender was {outside} and it sent "
@@ -578,6 +604,7 @@ def _strategy():
         "size": size,
         "shape": st.sampled_from(["bt", "ipv8"]),
         "nested": st.sampled_from([0, 0, 1]),
+        "te": st.sampled_from([0, 0, 1]),
         "dest": st.sampled_from([["5.5.5.5", 5555], ["2001:db8::5", 5555], ["5.6.7.8", 1]]),
         "resp": st.integers(0, 600),
         "fault": fault,
